@@ -553,6 +553,24 @@ func runC08(c *fw.Ctx, idx int) fw.Result {
 		res.Fail(mode+":error-on-valid-input", err.Error(), files, udArgv(o))
 		return res
 	}
+	if idx%20 == 9 {
+		binSample(c, &res, idx, "topranking", map[string]string{"ref.fasta": refTxt, "q.fasta": qTxt, "t.fa": tTxt,
+			"ignore.txt": strings.Join(o.Ignore, "\n") + map[bool]string{true: "\n", false: ""}[idx%40 == 9]}, func(p func(string) string) []string {
+			a := []string{"updown", "topranking", "-r", p("ref.fasta"), "-q", p("q.fasta"), "-t", p("t.fa")}
+			for k, v := range map[string]int{"--size-total": o.SizeTotal, "--size-same": o.SizeSame, "--size-up": o.SizeUp, "--size-down": o.SizeDown, "--size-side": o.SizeSide, "--dist-all": o.DistAll, "--dist-up": o.DistUp, "--dist-down": o.DistDown, "--dist-side": o.DistSide, "--dist-push": o.DistPush} {
+				if v != 0 {
+					a = append(a, k, fmt.Sprint(v))
+				}
+			}
+			a = append(a, "--threshold-pair", fmt.Sprint(o.ThreshPair), "--threshold-target", fmt.Sprint(o.ThreshTarget))
+			a = boolFlag(a, "no-fill", o.NoFill, idx%3 == 0)
+			a = boolFlag(a, "table", o.Table, idx%3 == 1)
+			if len(o.Ignore) > 0 {
+				a = append(a, "--ignore", p("ignore.txt"))
+			}
+			return a
+		}, nil, map[bool]string{true: "", false: "-o"}[idx%3 == 0], out)
+	}
 	flags := checkTopRanking(&res, in, o, out, files, udArgv(o), mode+":")
 	var fk []string
 	for k := range flags {
